@@ -765,4 +765,17 @@ theorem semHooks_complete (sem : Option Nat) : HookComplete (semHooks sem) (P118
       omega
     | some v => simp [P118] at hb
 
+/-! ### typed values -/
+
+theorem castInt (t : String) (n : Int) (h : t ∈ Spec.integerTypes) :
+    trivialCast (.int n) t =
+      (if t = "Integer" then .ok (.int n) else if inIntRange t n then .ok (.int n) else .error .valueError) := by
+  simp only [Spec.integerTypes, List.mem_cons, List.not_mem_nil, or_false] at h
+  rcases h with h | h | h | h | h | h | h | h | h | h | h | h | h <;> subst h <;> rfl
+
+theorem inIntRange_iff (t : String) (n : Int) (h : t ∈ Spec.integerTypes) : inIntRange t n = true ↔ Spec.InXsdRange t n := by
+  simp only [Spec.integerTypes, List.mem_cons, List.not_mem_nil, or_false] at h
+  rcases h with h | h | h | h | h | h | h | h | h | h | h | h | h <;> subst h <;>
+    simp [inIntRange, IntRanges.ranges, Spec.InXsdRange, Spec.xsdRanges]
+
 end Basyx.Constraints
